@@ -2,6 +2,7 @@ package cfuzz
 
 import (
 	"fmt"
+	"math"
 	"math/rand"
 	"sort"
 	"strings"
@@ -63,7 +64,7 @@ func salPool(r *rand.Rand) []int64 {
 	for v := int64(-25); v <= 25; v++ {
 		vals = append(vals, v)
 	}
-	vals = append(vals, 1000000007, -1000000007, 4294967296, -4294967297)
+	vals = append(vals, 1000000007, -1000000007, 4294967296, -4294967297, math.MaxInt64, math.MinInt64, math.MaxInt64-1, math.MinInt64+1)
 	r.Shuffle(len(vals), func(i, j int) { vals[i], vals[j] = vals[j], vals[i] })
 	return vals
 }
